@@ -366,6 +366,37 @@ func (i *interpreter) maybePreemptSync() {
 	}
 }
 
+// timerMayFireEarly: schedules are explored, a preemption is left and some
+// other goroutine could run (otherwise the timer fires anyway, for free).
+func (i *interpreter) timerMayFireEarly() bool {
+	w := i.w
+	if !w.preemptChans || w.preemptLeft <= 0 || w.local != nil {
+		return false
+	}
+	me := i.curG
+	for _, g := range i.gors {
+		if g == me || g.done {
+			continue
+		}
+		if g.id == 0 {
+			if !i.mainWaiting {
+				return true
+			}
+			continue
+		}
+		if g.waitReady != nil {
+			if g.waitReady() {
+				return true
+			}
+			continue
+		}
+		if g.blockedAt != i.progress {
+			return true
+		}
+	}
+	return false
+}
+
 // yieldTo hands the baton to g voluntarily (the caller stays eligible).
 func (i *interpreter) yieldTo(g *gor) {
 	me := i.curG
